@@ -88,6 +88,11 @@ def run_case(case):
                       if how == "coords"} or None
     dim_consts = {d: labelled.INTERNAL_DIMS[d][:desc["sizes"][d]]
                   for d, how in desc["dim_coords"].items() if how == "constant"}
+    if desc.get("dim_const_as") == "tuple":
+        dim_consts = {d: tuple(v) for d, v in dim_consts.items()}
+    elif desc.get("dim_const_as") == "ndarray":
+        import numpy as _np
+        dim_consts = {d: _np.array(v) for d, v in dim_consts.items()}
     consts = dict(desc["constants"])
     consts.update(dim_consts)
     resources = dict(desc["resources"])
@@ -190,7 +195,10 @@ def run_case(case):
                             (a, list(v)) for a, v in combos.items())
                 out = runner.run_cases(cases_in, constants=call_consts,
                                        **call_opts)
-    require(attrs == attrs_before and consts == consts_before,
+    require(attrs == attrs_before and
+            set(consts) == set(consts_before) and
+            all(models.deep_eq(consts[k_], consts_before[k_])
+                for k_ in consts),
             "arguments-modified",
             f"the attrs / constants mappings passed in were modified: attrs "
             f"{attrs!r} (was {attrs_before!r})")
@@ -295,6 +303,7 @@ def runner_desc(draw, to_df=False, allow_xobj=True):
             ["coords", "constant", "none"] if not xobj else
             ["none", "constant"]))
     consts = draw(gens.constants(2))
+    dim_const_as = draw(st.sampled_from(["list", "list", "tuple", "ndarray"]))
     resources = draw(st.sampled_from(
         [{}, {}, {"big": [1, 2, 3]}, {"res": "x", "lookup": 7}]))
     attrs = draw(st.sampled_from(
@@ -309,6 +318,7 @@ def runner_desc(draw, to_df=False, allow_xobj=True):
                 ["tuple", "list"] + (["str"] if nvars == 1 else []))),
             "dims_spelling": draw(st.sampled_from(spellings)),
             "dim_coords": dim_coords, "constants": consts,
+            "dim_const_as": dim_const_as,
             "resources": resources, "attrs": attrs}
 
 
